@@ -2,8 +2,8 @@
    (Lang/FixProofs.v), yield well-formed flat programs again: by the fixpoint theorem the visitor model then
    ACCEPTS the transformed program (validate and unroll) and unrolls it to itself -- "yields a valid program",
    "calling unroll() again changes nothing", for every program, of any size. *)
-From Coq Require Import ZArith List Bool String Lia.
-From Verif Require Import Aexp BGate PyVal CastPrim Ast State Arr GatesGen GateLib Unroll Depth DepthModel FixProofs
+From Coq Require Import ZArith List Bool String Lia FinFun.
+From Verif Require Import Aexp BGate PyVal CastPrim Ast State Arr GatesGen GateLib Unroll ResolveProofs Depth DepthModel FixProofs
                           Transforms TransformProofs.
 Import ListNotations.
 Open Scope string_scope.
@@ -653,4 +653,86 @@ Proof.
   intros H Hn Hf.
   destruct (wf_flat_is_accepted_and_a_fixpoint fuel _ (any_sequence_keeps_wellformed ts p H Hn) Hf) as [(o1 & E1 & N1 & _ & D1) (o2 & E2 & Ho & _)].
   split; [exists o1; repeat split; assumption|exists o2; split; assumption].
+Qed.
+
+(* ---------- populate and depth: exactly the idle qubits move from 0 to 1 ---------- *)
+Lemma evs_of_app a b : evs_of (a ++ b) = evs_of a ++ evs_of b.
+Proof. unfold evs_of. apply flat_map_app. Qed.
+Lemma evs_of_ids l : evs_of (map id_gate l) = map (fun b => [Qr b]) l.
+Proof.
+  unfold evs_of. induction l as [|b l IH]; [reflexivity|]. cbn [map flat_map]. rewrite IH.
+  unfold id_gate. cbn [ev_of mapM]. change (bit_qarg b) with (qarg_of b). rewrite lit_bit_of. reflexivity.
+Qed.
+
+(* the quantum resources of the events of a statement are qubits the statement uses *)
+Lemma ev_qubits_used n : forall stm ev b, (sdepth stm < n)%nat -> In ev (ev_of stm) -> In (Qr b) ev -> In b (stmt_qubits stm).
+Proof.
+  induction n as [|n IH]; intros stm ev b Hd Hev Hb; [lia|].
+  destruct stm; cbn [ev_of] in Hev; try contradiction.
+  - destruct (mapM lit_bit qubits) as [bs|] eqn:E; [|contradiction]. destruct Hev as [<-|[]].
+    cbn [stmt_qubits]. rewrite (opt_list_lit_bits _ _ E). apply in_map_iff in Hb as (x & Hx & Hin). inversion Hx; subst. exact Hin.
+  - destruct target as [t|]; [|contradiction]. destruct (lit_bit q) as [a|] eqn:Ea; [|contradiction]. destruct (lit_bit t) as [c|]; [|contradiction].
+    destruct Hev as [<-|[]]. cbn [stmt_qubits map opt_list]. change (qarg_bit q) with (lit_bit q). rewrite Ea.
+    destruct Hb as [Hx|[Hx|[]]]; inversion Hx; subst. now left.
+  - destruct (lit_bit q) as [a|] eqn:Ea; [|contradiction]. destruct Hev as [<-|[]]. cbn [stmt_qubits map opt_list]. change (qarg_bit q) with (lit_bit q). rewrite Ea.
+    destruct Hb as [Hx|[]]; inversion Hx; subst. now left.
+  - destruct qs as [|q [|]]; try contradiction. destruct (lit_bit q) as [a|] eqn:Ea; [|contradiction]. destruct Hev as [<-|[]].
+    cbn [stmt_qubits map opt_list]. change (qarg_bit q) with (lit_bit q). rewrite Ea. destruct Hb as [Hx|[]]; inversion Hx; subst. now left.
+  - rewrite !ev_of_block in Hev. rewrite sq_if. cbn [sdepth] in Hd. rewrite (sdepth_block then_), (sdepth_block else_) in Hd.
+    assert (Hl : forall l, (ldepth l < n)%nat -> In ev (evs_of l) -> In b (sql l)).
+    { induction l as [|x l IHl]; intros Hdl Hin; [contradiction|]. unfold evs_of in Hin. cbn [flat_map] in Hin. fold (evs_of l) in Hin.
+      unfold ldepth in Hdl. cbn [fold_right] in Hdl. fold (ldepth l) in Hdl. rewrite <- used_sql. cbn [used_qubits]. apply in_or_app.
+      apply in_app_or in Hin as [Hin|Hin]; [left; eapply IH; eauto; lia|right; rewrite used_sql; apply IHl; [lia|exact Hin]]. }
+    apply in_or_app. apply in_app_or in Hev as [Hev|Hev]; [left|right]; apply Hl; auto; lia.
+Qed.
+
+Lemma evs_qubits_used l ev b : In ev (evs_of l) -> In (Qr b) ev -> In b (used_qubits l).
+Proof.
+  induction l as [|x l IH]; intros Hev Hb; [contradiction|]. unfold evs_of in Hev. cbn [flat_map] in Hev. fold (evs_of l) in Hev.
+  cbn [used_qubits]. apply in_or_app. apply in_app_or in Hev as [Hev|Hev]; [left; eapply (ev_qubits_used (S (sdepth x))); eauto|right; now apply IH].
+Qed.
+
+Lemma depth_untouched evs r : (forall ev, In ev evs -> ~ In r ev) -> depth_after rsrc_eqb evs r = 0.
+Proof.
+  unfold depth_after. assert (G : forall d, d r = 0 -> (forall ev, In ev evs -> ~ In r ev) -> fold_left (dstep rsrc_eqb) evs d r = 0).
+  { induction evs as [|ev evs IH]; intros d Hd H; [exact Hd|]. cbn [fold_left]. apply IH; [|intros ev' Hin; apply H; now right].
+    rewrite (dstep_out rsrc_eqb rsrc_eqb_spec); [exact Hd|apply H; now left]. }
+  intros H. now apply G.
+Qed.
+
+(* appending one single-resource event per resource of a duplicate-free list of untouched resources *)
+Lemma depth_singletons l : forall (d : dmap (R := rsrc)) r, NoDup l -> (forall x, In x l -> d x = 0) ->
+  fold_left (dstep rsrc_eqb) (map (fun x => [x]) l) d r = if existsb (rsrc_eqb r) l then 1 else d r.
+Proof.
+  induction l as [|x l IH]; intros d r N H; [reflexivity|]. inversion N; subst. cbn [map fold_left existsb].
+  rewrite IH; [| exact H3 |].
+  - destruct (rsrc_eqb_spec r x) as [->|Nx]; cbn [orb].
+    + destruct (existsb (rsrc_eqb x) l) eqn:E; [reflexivity|].
+      rewrite (dstep_in rsrc_eqb rsrc_eqb_spec) by (now left). cbn [map]. unfold maxl. cbn [fold_right]. rewrite (H x (or_introl eq_refl)). reflexivity.
+    + destruct (existsb (rsrc_eqb r) l); [reflexivity|]. apply (dstep_out rsrc_eqb rsrc_eqb_spec). intros [E|[]]. congruence.
+  - intros y Hy. rewrite (dstep_out rsrc_eqb rsrc_eqb_spec); [apply H; now right|]. intros [E|[]]. subst. contradiction.
+Qed.
+
+Lemma nodup_all_qubits regs : NoDup (map fst regs) -> NoDup (all_qubits regs).
+Proof.
+  unfold all_qubits. induction regs as [|[r n] regs IH]; intros N; [constructor|]. cbn [map fst] in N. inversion N; subst.
+  cbn [flat_map fst snd]. apply ResolveProofs.nodup_app.
+  - apply Injective_map_NoDup; [intros a b E; now inversion E|]. unfold range_z. apply Injective_map_NoDup; [intros a b E; lia|apply seq_NoDup].
+  - now apply IH.
+  - intros x Hy Hx. apply in_map_iff in Hx as (i & <- & _). apply in_flat_map in Hy as ([r' n'] & Hr & Hin). cbn [fst snd] in Hin.
+    apply in_map_iff in Hin as (j & E & _). inversion E; subst. apply H1. apply in_map_iff. exists (r, n'). auto.
+Qed.
+
+Theorem populate_depth p r : wf_flat env0 p = true ->
+  depth_after rsrc_eqb (evs_of (populate p)) r
+  = if existsb (rsrc_eqb r) (map Qr (idle_qubits p)) then 1 else depth_after rsrc_eqb (evs_of p) r.
+Proof.
+  intros H. unfold populate. rewrite evs_of_app, evs_of_ids. unfold depth_after. rewrite fold_left_app.
+  replace (map (fun b => [Qr b]) (idle_qubits p)) with (map (fun x => [x]) (map Qr (idle_qubits p))) by (now rewrite map_map).
+  apply depth_singletons.
+  - apply Injective_map_NoDup; [intros a b E; now inversion E|]. unfold idle_qubits. apply NoDup_filter. apply nodup_all_qubits.
+    pose proof (env_after_nodup p env0 H) as N. rewrite (env_after_q p env0 H) in N. cbn [e_q env0 app map] in N. apply N. constructor.
+  - intros x Hx. apply in_map_iff in Hx as (b & <- & Hb). apply depth_untouched. intros ev Hev Hin.
+    unfold idle_qubits in Hb. apply filter_In in Hb as [_ Hb]. apply negb_true_iff in Hb.
+    assert (bmem b (used_qubits p) = true); [|congruence]. apply bmem_In. eapply evs_qubits_used; eauto.
 Qed.
